@@ -183,6 +183,86 @@ func c10Eval(doc map[string]any, toks []string) Case {
 			fail = append(fail, "last trail element is not the resolved node")
 		}
 	}
+	// evaluation reads the document as it is NOW: after the lists on the way were edited in place (cleared, grown, an item
+	// replaced) through their builders, the same pointer is evaluated against the edited tree
+	if len(fail) == 0 {
+		edited := deepCopy(doc).(map[string]any)
+		changed := false
+		var cur any = edited
+		var curN dom.Node = c
+		for i, t := range toks {
+			switch x := cur.(type) {
+			case map[string]any:
+				nx, ok := x[t]
+				if !ok {
+					cur = nil
+				} else {
+					cur, curN = nx, curN.(dom.Container).Child(t)
+				}
+			case []any:
+				lb, isLb := curN.(dom.ListBuilder)
+				if !isLb || i == 0 {
+					cur = nil
+					break
+				}
+				parent := toks[i-1]
+				_ = parent
+				var nl []any
+				switch len(gNode(doc)) % 3 {
+				case 0:
+					lb.Clear()
+					nl = []any{}
+				case 1:
+					lb.Append(dom.LeafNode("appended"))
+					nl = append(append([]any{}, x...), "appended")
+				default:
+					if len(x) > 0 {
+						lb.MustSet(0, dom.LeafNode("replaced"))
+						nl = append([]any{"replaced"}, x[1:]...)
+					} else {
+						nl = x
+					}
+				}
+				// write the new list back into the plain tree
+				var back func(v any, ts []string) any
+				back = func(v any, ts []string) any {
+					if len(ts) == 0 {
+						return nl
+					}
+					switch y := v.(type) {
+					case map[string]any:
+						y[ts[0]] = back(y[ts[0]], ts[1:])
+						return y
+					case []any:
+						if j, ok := canonIndex(ts[0]); ok && j < len(y) {
+							y[j] = back(y[j], ts[1:])
+						}
+						return y
+					}
+					return v
+				}
+				edited = back(edited, toks[:i]).(map[string]any)
+				changed = true
+				cur = nil
+			default:
+				cur = nil
+			}
+			if cur == nil {
+				break
+			}
+		}
+		if changed {
+			var res2 dom.Node
+			if pn := guard(func() { _, res2 = p.Eval(c) }); pn != "" {
+				fail = append(fail, "panic in Path.Eval after an in-place edit of a list on the way: "+pn)
+			} else {
+				rv2, rok2 := refEval(toks, edited)
+				if rok2 != (res2 != nil) || (rok2 && gNode(rv2) != gNode(nodeToAny(res2))) {
+					fail = append(fail, fmt.Sprintf("after an in-place edit of the first list on the way (now %s) the pointer does not resolve as in the edited tree", gNode(edited)))
+				}
+			}
+		}
+	}
 	return Case{Kind: "eval", Desc: map[string]any{"doc": doc, "pointer": toks, "resolved": res != nil, "result": resv},
 		Coq:  "CEval " + gStrs(toks) + " " + gNode(doc) + " " + gList(tr, gNode) + " " + gOptNode(resv, res != nil),
 		Fail: fail, Nontrivial: len(toks) >= 2}
@@ -417,7 +497,7 @@ func init() {
 			case 2:
 				o := defaultOpts()
 				if r.Intn(3) == 0 { // a reference token is a member name taken literally: dots, slashes and the empty name included
-					o.keys = []string{"a", "b", "a.b", "", "x.y", "app.kubernetes.io/name", "rev.v1", "x"}
+					o.keys = []string{"a", "b", "a.b", "", "x.y", "app.kubernetes.io/name", "rev.v1", "x", "-"}
 				}
 				doc := genDoc(r, o)
 				return c10Eval(doc, c10PointerFor(r, doc))
